@@ -179,15 +179,19 @@ func configText(jobs ...*jobSpec) string {
 	return b.String()
 }
 
+// rawBytes: case files are JSON, which cannot carry bytes that are no UTF-8; "<E9>" in a value of the case stands for
+// the byte 0xE9 (latin-1 e acute) in the value discovery delivers.
+func rawBytes(v string) string { return strings.Replace(v, "<E9>", "\xe9", -1) }
+
 func (g *grpSpec) group() *targetgroup.Group {
 	tg := &targetgroup.Group{Source: g.Source, Labels: model.LabelSet{}}
 	for k, v := range g.Labels {
-		tg.Labels[model.LabelName(k)] = model.LabelValue(v)
+		tg.Labels[model.LabelName(k)] = model.LabelValue(rawBytes(v))
 	}
 	for _, t := range g.Targets {
 		ls := model.LabelSet{}
 		for k, v := range t {
-			ls[model.LabelName(k)] = model.LabelValue(v)
+			ls[model.LabelName(k)] = model.LabelValue(rawBytes(v))
 		}
 		tg.Targets = append(tg.Targets, ls)
 	}
@@ -259,7 +263,7 @@ func genLabels(t *rapid.T, label string, max int) map[string]string {
 		out[k] = rapid.SampledFrom(valuePool).Draw(t, fmt.Sprintf("%s-v%d", label, i))
 		if strings.HasPrefix(k, "__meta_") && rapid.IntRange(0, 5).Draw(t, fmt.Sprintf("%s-latin1-%d", label, i)) == 0 {
 			// discovery meta data is not checked for valid UTF-8 (it never becomes a label of the target)
-			out[k] = "caf\xe9 latin-1"
+			out[k] = "caf<E9> latin-1"
 		}
 	}
 	return out
